@@ -33,10 +33,12 @@ require (
 	github.com/prometheus/procfs v0.8.0 // indirect
 	github.com/repustate/go-cdb v0.0.0-20160430174706-6a418fad95e2 // indirect
 	github.com/sirupsen/logrus v1.8.1 // indirect
-	golang.org/x/sync v0.0.0-20220722155255-886fb9371eb4 // indirect
+	golang.org/x/sync v0.10.0 // indirect
 	google.golang.org/protobuf v1.28.1 // indirect
 )
 
 replace github.com/facebookincubator/dns/dnsrocks => /repo/dnsrocks
 
 replace github.com/repustate/go-cdb => /repo/dnsrocks/go-cdb-mods
+
+replace golang.org/x/net => ./third_party/xnet
